@@ -346,3 +346,34 @@ func readFileOrNil(p string) []byte {
 	}
 	return b
 }
+
+// ---------------------------------------------------------------------------
+// one real server per worker process, serving <worker tmp>/served
+
+// workerServer returns the base URL and served directory of this worker's server child
+// (started lazily from the freshly built binary; it dies with the worker).
+func workerServer(c *fw.Ctx) (baseURL, servedDir string, ok bool) {
+	if v, has := c.Env.State["server_url"]; has {
+		return v.(string), c.Env.State["server_dir"].(string), true
+	}
+	dir := filepath.Join(c.Env.Tmp, "served")
+	mustMkdir(dir)
+	cmd, u, out, err := startServer(cliBin(c), dir, os.Environ())
+	if err != nil {
+		c.Inconclusive("cannot start whispertool server: " + err.Error())
+		return "", "", false
+	}
+	c.Env.State["server_url"] = u
+	c.Env.State["server_dir"] = dir
+	c.Env.State["server_cmd"] = cmd
+	c.Env.State["server_out"] = out
+	return u, dir, true
+}
+
+// serverOutput returns what the worker's server printed so far (for panic scanning).
+func serverOutput(c *fw.Ctx) string {
+	if v, has := c.Env.State["server_out"]; has {
+		return v.(*bytes.Buffer).String()
+	}
+	return ""
+}
